@@ -24,6 +24,7 @@ def case_strategy():
             "roots": gen.layout_forest(newlines=True, meta=True, blank=("", "", " ", "\t", "\xa0", "\n")).map(lambda f: gen.number([gen.make_valid(n) for n in f])),
             "indent": st.one_of(st.integers(0, 8), st.integers(0, 8), st.integers(9, 30)),
             "eol": st.sampled_from(EOLS),
+            "share": st.one_of(st.just(0), st.integers(1, 10**6)),
         }
     )
 
@@ -45,7 +46,11 @@ def body_model(case, note):
     import htmltools as h
 
     roots, indent, eol = case["roots"], case["indent"], case["eol"]
-    objs = [build(r) for r in roots]
+    shared = bool(case.get("share"))
+    if shared:
+        roots = gen.share_some(roots, case["share"])  # some children occur again as the very same object
+    memo: dict = {}
+    objs = [build(r, memo) for r in roots]
     tl = h.TagList(*objs)
     got = tl.get_html_string(indent, eol)
     exp = L.render_list(roots, indent, eol)
@@ -65,7 +70,7 @@ def body_model(case, note):
         nt = nt or _stats(r)
     kinds = {r["k"] for r in roots}
     blank = any(_has_blank(r) for r in roots)
-    note(nt, "blank-leaf" if blank else "", "list-root-mixed" if len(roots) >= 2 and "tag" in kinds and len(kinds) > 1 else "", "eol:" + repr(eol), "indent>0" if indent else "")
+    note(nt, "blank-leaf" if blank else "", "same-object-twice" if shared and memo else "", "list-root-mixed" if len(roots) >= 2 and "tag" in kinds and len(kinds) > 1 else "", "eol:" + repr(eol), "indent>0" if indent else "")
 
 
 def body_shift(case, note):
@@ -104,6 +109,6 @@ RULE = (
 )
 
 CLAUSES = [
-    Clause("model", body_model, strategy=case_strategy, quick=800, thorough=12000, shards_quick=4, required=("list-root-mixed", "indent>0", "blank-leaf"), rule="block with block and non-block children"),
+    Clause("model", body_model, strategy=case_strategy, quick=800, thorough=12000, shards_quick=4, required=("list-root-mixed", "indent>0", "blank-leaf", "same-object-twice"), rule="block with block and non-block children"),
     Clause("shift", body_shift, strategy=case_strategy, quick=400, thorough=6000, shards_quick=2, rule=">=3 lines, indent>0"),
 ]
